@@ -59,7 +59,7 @@ YVal(kind) == CASE kind = "bytes" -> PConst(3) [] kind = "hash" -> PAtom("yh") [
 
 \* ------------------------------------------------------------ adversary: one component perturbed
 Perts == {"none", "u_add", "u_neg", "u_id", "v_add", "v_neg", "v_id", "uv_id", "y_other", "y_zero", "msg", "pk_other", "pk_neg", "pk_id", "label", "forge_v_id", "pop_as_sig"}
-TsPerts == {"none", "u_add", "u_id", "v_add", "v_neg", "v_id", "msg", "pk_other", "pk_id", "label", "ts_past", "ts_future", "ts_zero", "ts_max"}
+TsPerts == {"none", "u_add", "u_id", "v_add", "v_neg", "v_id", "msg", "pk_other", "pk_id", "label", "ts_past", "ts_future", "ts_zero", "ts_max", "cross_forge"}
 
 \* ------------------------------------------------------------ system
 Quiet == [act |-> "-"]
@@ -127,14 +127,22 @@ AVerifyTs(pert, tau) ==       \* tau = -1 : no timeout
          u == Commit(s, pk, m)
          y == PAtom("yts")                              \* Hy(u, T0)
          v == GNeg(GScale(PAdd(PAtom("x"), y), sig))
-         u2 == CASE pert = "u_add" -> GAdd(u, GenS) [] pert = "u_id" -> GId [] OTHER -> u
-         v2 == CASE pert = "v_add" -> GAdd(v, GenS) [] pert = "v_neg" -> GNeg(v) [] pert = "v_id" -> GId [] OTHER -> v
+         \* cross_forge: the holder of a signature under scheme s builds a proof for the OTHER scheme from a challenge
+         \* value y0 it obtained for some other commitment: u' = (x + y0) H_s - y0 H_other, v' = -(x + y0) sig.  It
+         \* verifies iff the verifier's challenge for (u', t) is y0 - which a challenge bound to the commitment never is
+         y0 == PAtom("y0")
+         hO == Hs(TagOf(OtherScheme(s)), CommitMsg(OtherScheme(s), pk, m))
+         hS == Hs(TagOf(s), CommitMsg(s, pk, m))
+         u2 == CASE pert = "u_add" -> GAdd(u, GenS) [] pert = "u_id" -> GId
+                 [] pert = "cross_forge" -> GAdd(GScale(PAdd(PAtom("x"), y0), hS), GNeg(GScale(y0, hO))) [] OTHER -> u
+         v2 == CASE pert = "v_add" -> GAdd(v, GenS) [] pert = "v_neg" -> GNeg(v) [] pert = "v_id" -> GId
+                 [] pert = "cross_forge" -> GNeg(GScale(PAdd(PAtom("x"), y0), sig)) [] OTHER -> v
          ts == CASE pert = "ts_past" -> T0 - 10 [] pert = "ts_future" -> T0 + 100000 [] pert = "ts_zero" -> 0 [] pert = "ts_max" -> 2000000000 [] OTHER -> T0
          \* the verifier recomputes y from what it is shown: a random-oracle value, fresh unless (u, t) is the honest pair
          y2 == IF u2 = u /\ ts = T0 THEN y ELSE PAtom("yfresh")
          m2 == IF pert = "msg" THEN DenMsg(OtherMsg(ses.m)) ELSE m
          pk2 == CASE pert = "pk_other" -> PkOf(OtherKey(k)) [] pert = "pk_id" -> GId [] OTHER -> pk
-         s2 == IF pert = "label" THEN OtherScheme(s) ELSE s
+         s2 == IF pert \in {"label", "cross_forge"} THEN OtherScheme(s) ELSE s
          r == VerifyTs(u2, v2, pk2, y2, s2, m2, ts, clock, tau) IN
        last' = [act |-> "PokTs", k |-> k, scheme |-> s, msg |-> ses.m, pert |-> pert, delay |-> clock - T0, tau |-> tau,
                 k2 |-> OtherKey(k), msg2 |-> OtherMsg(ses.m), scheme2 |-> OtherScheme(s),
